@@ -228,5 +228,26 @@ CHECKS["C12"] = {
     ],
 }
 
+CHECKS["C16"] = {
+    "level": "exploration",
+    "claim": ("Real turn.Server with a stream listener; scripted stream clients (raw STUN over simnet TCP), TCP allocations, listening / "
+              "refusing / operator-denied TCP peers, inbound peer connections with and without permission, ConnectionBind on fresh data "
+              "connections with right/unknown/repeated/late ids and right/wrong users and owners, sleeps of 28..32 s around the bind deadline, "
+              "byte streams both ways with generated segmentation, closes from either side and of the control connection. Oracles: unique "
+              "connection ids, a real peer connection from the relayed address behind every id, ConnectionAttempt only for permitted "
+              "senders, bind succeeds iff known/unbound/owner's user/within 30 s and at most once, unbound connections closed after the "
+              "deadline, exact stream equality in both directions, close propagation, 446 on duplicate Connect, and after every step the "
+              "manager's mutexes are free (TryLock probe) and a Binding probe on every control connection is answered."),
+    "level_note": _SRV_NOTE + " The lock probe reaches the manager's mutexes by reflection over field types.",
+    "technique": "stateful property-based testing (rapid scripts + shrinking) of the real server under virtual time over an in-memory TCP network, reference model of RFC 6062 connection state, lock-at-quiescence probe",
+    "rule": "non-trivial = at least one successful ConnectionBind with bytes relayed in both directions and at least one rejected/late/duplicate/unknown operation; distinct by hash of the script",
+    "assumptions": [],
+    "stages": [
+        {"name": "tcpworld", "pkg": "srvworld", "run": "^TestC16$",
+         "quick": {"shards": 4, "checks": 2500, "timeout_s": 420},
+         "thorough": {"shards": 16, "checks": 30000, "size": 60, "timeout_s": 2400}},
+    ],
+}
+
 _NOT_BUILT = "check not built yet in this round (planned, see DESIGN.md section 4)"
 PENDING = {("C%02d" % i): _NOT_BUILT for i in range(1, 21)}
